@@ -114,6 +114,8 @@ def flatten(repo, fn, depth=2, only=None):
             return None
         if any(isinstance(x, (ast.Yield, ast.YieldFrom, ast.Lambda)) for x in ast.walk(callee.node)):
             return None
+        if callee.node.args.vararg is not None or callee.node.args.kwarg is not None or callee.node.args.kwonlyargs:
+            return None         # *args / **kwargs / keyword-only parameters are not substituted: such a helper is left as a call
         params = [a.arg for a in callee.node.args.args]
         cls_subst = None
         if params and params[0] in ("self", "cls") and bound:
